@@ -16,7 +16,7 @@ PROFILE = dict(weights=[5, 2.5, 3, 1.5, 0.3, 0.7, 0.5], queries=["lookup", "look
 
 def check(tier):
     return regcommon.run_property(
-        "C09", tier, THEOREMS, PROFILE, dict(quick=160, thorough=3000),
+        "C09", tier, THEOREMS, PROFILE, dict(quick=500, thorough=3000),
         "register/unregister/subscribe/unsubscribe/rebuild histories with overwrites, repeated identical registrations, equal-but-distinct values, register(None), "
         "removals emptying nested containers; registered/subscribed/allRegistrations/allSubscriptions after every step; clones by replay and rebuild() compared on lookups; "
         "distinct_nontrivial = registered() queries judged against the flat map",
